@@ -11,7 +11,12 @@ import tlc
 def obs_of(c, queries, ctx_only=False):
     import config_checks as cc
     calls = cc.project_calls(c.calls)
-    o = {"calls": calls, "stream_ids": [], "by_stream": [], "has": [], "contexts": [], "agg": []}
+    o = {"calls": calls, "stream_ids": [], "by_stream": [], "has": [], "contexts": [], "agg": [], "hashable": True}
+    try:
+        for x in c.calls:
+            hash(x)                  # Call defines __hash__ next to __eq__
+    except TypeError:
+        o["hashable"] = False
     if ctx_only:
         return o
     o["stream_ids"] = list(c.stream_ids)
@@ -201,7 +206,7 @@ def check_global_attr_precedence(ctx):
                                                   ("flat_line_test", "temp", {"tolerance": 1, "suspect_threshold": 1, "fail_threshold": 2})])}
         ds = xr.Dataset(decoy, attrs={"ioos_qc_config": _json.dumps(d)})
         e = {"id": n + 1, "cid": n, "ev": "load", "cfg": cfg, "layout": layout, "carrier": "xr_global", "exc": "", "calls": [],
-             "ncalls": 0, "rt": {"exc": "", "calls": []}, "again": {"done": False, "exc": "", "calls": [], "ncalls": 0}}
+             "ncalls": 0, "rt": {"exc": "", "calls": []}, "again": {"done": False, "exc": "", "calls": [], "ncalls": 0}, "ndistinct": 10 ** 6}
         try:
             c = Config(ds)
             e["calls"], e["ncalls"] = cc.project_calls(c.calls), len(c.calls)
